@@ -34,7 +34,7 @@ structure Row where
   obs : Nat
   plate : Name
   mask : Bool
-deriving Repr, BEq, DecidableEq
+deriving Repr, BEq, DecidableEq, Inhabited
 
 /-- the experiment of a row: what C11 conserves -/
 def Row.exp (r : Row) : Name × List Name × List Dose × Nat := (r.sample, r.tn, r.td, r.obs)
@@ -114,7 +114,7 @@ def plateIdx (s : Screen) : List (List Nat) := (uniqueSorted s.pids).map (idxOfI
 
 /-- the generator contract of `choice(p, k, replace=False)` on a returned value `c` -/
 def validChoice (p : List Nat) (k : Nat) (c : List Nat) : Bool :=
-  c.length == k && c.eraseDups.length == c.length && c.all (fun i => p.contains i)
+  c.length == k && decide c.Nodup && c.all (fun i => p.contains i)
 
 /-! ### the wrappers of `core.py` -/
 
@@ -389,24 +389,23 @@ def holdoutSplit (s : Screen) (chosen : List Nat) : Except Err (Screen × Screen
 def plateObserved (mask : List Bool) (p : List Nat) : Bool := p.all (fun i => mask[i]!)
 
 /-- the loop over `screen.plates` of the plate-balanced hold-out: skip observed plates, take the recorded choice of
-    `k` rows from every unobserved one (`ks`: one count per unobserved plate, `ceil(size × fraction)` computed by the caller) -/
-def balancedLoop (mask : List Bool) : List (List Nat) → List Nat → List (List Nat) → Except Err (List Nat)
-  | [], _, _ => .ok []
-  | p :: ps, ks, log =>
-    if plateObserved mask p then balancedLoop mask ps ks log
-    else match ks, log with
-      | k :: ks', c :: rest => if !(validChoice p k c) then .error .other else (c ++ ·) <$> balancedLoop mask ps ks' rest
-      | _, _ => .error .other
+    `kf size` rows from every unobserved one.  `kf` is the count as a function of the plate size: the caller passes
+    `fun n => ceil(fl(n × fraction))` computed at IEEE double; the theorems hold for every `kf`. -/
+def balancedLoop (kf : Nat → Nat) (mask : List Bool) : List (List Nat) → List (List Nat) → Except Err (List Nat)
+  | [], _ => .ok []
+  | p :: ps, log =>
+    if plateObserved mask p then balancedLoop kf mask ps log
+    else match log with
+      | c :: rest => if !(validChoice p (kf p.length) c) then .error .other else (c ++ ·) <$> balancedLoop kf mask ps rest
+      | [] => .error .other
 
-def unobservedPlates (s : Screen) : List (List Nat) :=
-  (plateIdx s).filter (fun p => !plateObserved ((rowsOf s).map (·.mask)) p)
-
-def holdoutBalanced (ks : List Nat) (choices : List (List Nat)) (s : Screen) : Except Err (Screen × Screen) := do
-  let chosen ← balancedLoop ((rowsOf s).map (·.mask)) (plateIdx s) ks choices
+def holdoutBalanced (kf : Nat → Nat) (choices : List (List Nat)) (s : Screen) : Except Err (Screen × Screen) := do
+  let chosen ← balancedLoop kf ((rowsOf s).map (·.mask)) (plateIdx s) choices
   holdoutSplit s chosen
 
-def holdoutRandom (k : Nat) (choice : List Nat) (s : Screen) : Except Err (Screen × Screen) :=
-  if !(validChoice (List.range (rowsOf s).length) k choice) then .error .other
+def holdoutRandom (kf : Nat → Nat) (choice : List Nat) (s : Screen) : Except Err (Screen × Screen) :=
+  let n := (rowsOf s).length
+  if !(validChoice (List.range n) (kf n) choice) then .error .other
   else holdoutSplit s choice
 
 /-! ### filter_dataset_to_treatments_that_appear_in_at_least_one_combo -/
